@@ -91,7 +91,9 @@ func (x *runner) runSched(c schedCase, origin string) bool {
 	labels := append([]labJ(nil), c.Labels...)
 	var done []labJ
 	var obs []string
-	k := func() kase { return kase{Kind: "sched", Sched: &schedCase{Labels: append(append([]labJ(nil), done...), labels...)}} }
+	k := func() kase {
+		return kase{Kind: "sched", Sched: &schedCase{Labels: append(append([]labJ(nil), done...), labels...)}}
+	}
 	fail := func(key, what string) { x.res.Fail(key, what, k()) }
 	abort := func(key, what string) bool {
 		fail(key, what)
@@ -139,6 +141,19 @@ func (x *runner) runSched(c schedCase, origin string) bool {
 		}
 	}
 	lostBudget := 3
+	awaitWoken := func(d time.Duration) bool {
+		deadline := time.Now().Add(d)
+		for {
+			if g.Arrived(hkWoken) > woken0 && g.Parked(hkWoken) > 0 {
+				woken0 = g.Arrived(hkWoken)
+				return true
+			}
+			if time.Now().After(deadline) {
+				return false
+			}
+			time.Sleep(50 * time.Microsecond)
+		}
+	}
 
 	for len(labels) > 0 {
 		l := labels[0]
@@ -169,9 +184,11 @@ func (x *runner) runSched(c schedCase, origin string) bool {
 			if pos != atChecked && pos != inRecv {
 				break
 			}
+			entered := false
 			if pos == atChecked {
 				g.Release(hkChecked)
 				pos = inRecv
+				entered = true
 			}
 			expectWake := tok || closed
 			wait := 8 * time.Millisecond
@@ -200,6 +217,9 @@ func (x *runner) runSched(c schedCase, origin string) bool {
 				o = "SDid BWoke"
 			} else {
 				o = "SBlocked"
+				if entered {
+					o = "SDid BInRecv"
+				}
 				if len(delivered) > len(read) {
 					lostBudget--
 					fail("C15/read/lost-wakeup:notify-between-check-and-wait", fmt.Sprintf("the reader is blocked in its wait although %d delivered bytes are buffered (after %s)", len(delivered)-len(read), labelsText(done)))
@@ -240,7 +260,16 @@ func (x *runner) runSched(c schedCase, origin string) bool {
 				}
 				delivered = append(delivered, d...)
 				seq = (seq + 1) % 65536
-				tok = true
+				if pos == inRecv {
+					// a reader blocked in the receive takes the wake-up directly
+					if awaitWoken(time.Second) {
+						pos = atWoken
+					} else {
+						fail("C15/read/lost-wakeup:reader-in-receive", "a reader blocked in its wait is not woken by an acknowledged data packet")
+					}
+				} else {
+					tok = true
+				}
 			} else {
 				o = "SDid BRefused"
 				if !closed {
@@ -266,6 +295,13 @@ func (x *runner) runSched(c schedCase, origin string) bool {
 			}
 			closed = true
 			o = "SDid BClosed"
+			if pos == inRecv {
+				if awaitWoken(time.Second) {
+					pos = atWoken
+				} else {
+					fail("C15/read/no-eof-after-close", "a reader blocked in its wait is not woken by the close")
+				}
+			}
 		}
 		obs = append(obs, o)
 		// complete the schedule: close, then let the reader run to end-of-file
@@ -276,7 +312,7 @@ func (x *runner) runSched(c schedCase, origin string) bool {
 			case pos == idle && !(strings.Contains(o, "BReturned") && strings.HasSuffix(o, "true)")):
 				labels = append(labels, labJ{L: "start", N: 64})
 			case pos == atChecked || pos == inRecv:
-				if o != "SBlocked" {
+				if o != "SBlocked" && o != "SDid BInRecv" {
 					labels = append(labels, labJ{L: "wait"})
 				}
 			case pos == atWoken:
@@ -337,7 +373,7 @@ var schedAlphabet = []labJ{
 // that; it only prunes sequences, it is not compared with anything).
 func enumSched(n int) []schedCase {
 	type st struct {
-		pos    int // 0 idle 1 checked 2 woken
+		pos    int // 0 idle 1 checked 2 woken 3 blocked in the receive
 		buf    int
 		tok    bool
 		closed bool
@@ -366,10 +402,12 @@ func enumSched(n int) []schedCase {
 				if s.pos != 1 {
 					continue
 				}
-				if s.closed {
-					t.pos, t.wokeOK = 2, false
-				} else if s.tok {
+				if s.tok {
 					t.pos, t.tok, t.wokeOK = 2, false, true
+				} else if s.closed {
+					t.pos, t.wokeOK = 2, false
+				} else {
+					t.pos = 3
 				}
 			case "resume":
 				if s.pos != 2 {
@@ -386,13 +424,20 @@ func enumSched(n int) []schedCase {
 			case "deliver":
 				if !s.closed {
 					t.buf += len(l.D) / 2
-					t.tok = true
+					if s.pos == 3 {
+						t.pos, t.wokeOK = 2, true
+					} else {
+						t.tok = true
+					}
 				}
 			case "close":
 				if s.closed {
 					continue
 				}
 				t.closed = true
+				if s.pos == 3 {
+					t.pos, t.wokeOK = 2, false
+				}
 			}
 			rec(t, append(pre, l))
 		}
